@@ -410,10 +410,17 @@ func (w FederatingWrappedCallbacks) follow(c context.Context, a vocab.ActivitySt
 		me := streams.NewActivityStreamsActorProperty()
 		response.SetActivityStreamsActor(me)
 		me.AppendIRI(actorIRI)
-		// Set the Follow as the 'object' property.
+		// Set a copy of the Follow as the 'object' property: preparing the
+		// delivery strips the hidden recipients of embedded objects in
+		// place, and the received Follow is still to be handed to the
+		// application's callback and considered for inbox forwarding.
+		followCopy, err := copyFollow(c, a)
+		if err != nil {
+			return err
+		}
 		op := streams.NewActivityStreamsObjectProperty()
 		response.SetActivityStreamsObject(op)
-		op.AppendActivityStreamsFollow(a)
+		op.AppendActivityStreamsFollow(followCopy)
 		// Add all actors on the original Follow to the 'to' property.
 		recipients := make([]*url.URL, 0)
 		to := streams.NewActivityStreamsToProperty()
@@ -478,6 +485,26 @@ func (w FederatingWrappedCallbacks) follow(c context.Context, a vocab.ActivitySt
 		return w.Follow(c, a)
 	}
 	return nil
+}
+
+// copyFollow returns a deep copy of a Follow activity.
+func copyFollow(c context.Context, a vocab.ActivityStreamsFollow) (vocab.ActivityStreamsFollow, error) {
+	m, err := streams.Serialize(a)
+	if err != nil {
+		return nil, err
+	}
+	var cp vocab.ActivityStreamsFollow
+	res, err := streams.NewJSONResolver(func(c context.Context, f vocab.ActivityStreamsFollow) error {
+		cp = f
+		return nil
+	})
+	if err != nil {
+		return nil, err
+	}
+	if err = res.Resolve(c, m); err != nil {
+		return nil, err
+	}
+	return cp, nil
 }
 
 // accept implements the federating Accept activity side effects.
